@@ -2,6 +2,7 @@ package main
 
 import (
 	"fmt"
+	"go/types"
 	"strings"
 
 	"golang.org/x/tools/go/ssa"
@@ -110,12 +111,20 @@ func ruleHasBodyGate(c *Ctx, rule string) {
 		s, ok := constString(args[0])
 		return ok && s == "Content-Length" && vFieldLoad("net/http.Request", "Header", isReq)(recv)
 	}
-	headerPresent := factEqString(isCLHeader, "", false)
+	headerPresent := factContentLengthDeclared(isReq, isCLHeader)
 	n := 0
 	for _, ret := range returnsOf(hb) {
 		if b, ok := constBool(ret.Results[0]); ok && !b {
 			n++
 			c.obI(rule, ret, "no-body-only-with-declared-length", guardedBy(ret, nil, headerPresent), "HasBody answers false without probing the stream only when a Content-Length header is present, so a body of undeclared length is always subjected to the content-type gate", "constant false reachable although no length is declared")
+		}
+	}
+	// … and answers true without probing only for a POSITIVE declared length: an unknown length (-1, chunked) is probed,
+	// so an empty chunked request is not subjected to the gate as if it had a body
+	clPositive := factContentLengthPositive(isReq)
+	for _, ret := range returnsOf(hb) {
+		if b, ok := constBool(ret.Results[0]); ok && b {
+			c.obI(rule, ret, "body-without-probing-only-with-positive-length", guardedBy(ret, nil, clPositive), "HasBody answers true without probing the stream only when ContentLength > 0", "constant true reachable without ContentLength > 0 (an unknown length counts as a body)")
 		}
 	}
 	probes := callsIn(hb, "(*rt.peekingReader).HasContent")
@@ -125,6 +134,7 @@ func ruleHasBodyGate(c *Ctx, rule string) {
 func runC06(c *Ctx) {
 	p := c.P
 	ruleHasBodyGate(c, "R06.0")
+	ruleRoutableAPIDelegates(c, "R06.4", "ConsumersFor", "DefaultConsumes")
 
 	type gate struct {
 		fn        string
@@ -234,7 +244,16 @@ func runC06(c *Ctx) {
 	ctc := callsIn(vr, "(*rt/middleware.validation).contentType")
 	rfc := callsIn(vr, "(*rt/middleware.validation).responseFormat")
 	prm := callsIn(vr, "(*rt/middleware.validation).parameters")
-	c.obRF("R06.2", vr, "stages", len(ctc) == 1 && len(rfc) == 1 && len(prm) == 1, "validateRequest runs the content-type gate, the response-format gate and parameter binding", fmt.Sprintf("%d/%d/%d", len(ctc), len(rfc), len(prm)))
+	if ord, grd, isTable := stageTable(vr); isTable && len(ctc)+len(rfc)+len(prm) == 0 {
+		// the three stages as an ordered table of steps, each run only while no error was recorded
+		ctI, rfI, pmI := ord["contentType"], ord["responseFormat"], ord["parameters"]
+		c.obF("R06.2", vr, "bind-after-content-type-gate", grd && ctI < pmI, "parameter binding (and with it the consumer) runs only when the content-type gate recorded no error", "in the table of steps binding is not behind the content-type gate, or a step runs although an error was recorded")
+		c.obF("R06.2", vr, "bind-after-format-gate", grd && rfI < pmI, "parameter binding runs only when the response-format gate recorded no error", "in the table of steps binding is not behind the response-format gate")
+		c.obF("R06.2", vr, "format-after-content-type-gate", grd && ctI < rfI, "the response format is negotiated only when the content-type gate recorded no error", "")
+		c.obF("R06.2", vr, "content-type-gate-first", ctI < rfI, "the content-type gate runs before the response-format gate in the reflective entry point (a request wrong on both counts is refused 415/400, as by the generated-server entry point)", "the response format is negotiated before the content type was checked")
+	} else {
+		c.obRF("R06.2", vr, "stages", len(ctc) == 1 && len(rfc) == 1 && len(prm) == 1, "validateRequest runs the content-type gate, the response-format gate and parameter binding", fmt.Sprintf("%d/%d/%d", len(ctc), len(rfc), len(prm)))
+	}
 	resultEmpty := factLenPositive(vFieldLoad("rt/middleware.validation", "result", nil), false)
 	if len(ctc) == 1 && len(rfc) == 1 && len(prm) == 1 {
 		c.obI("R06.2", prm[0], "bind-after-content-type-gate", dominates(ctc[0], prm[0]) && guardedBy(prm[0], ctc[0], resultEmpty), "parameter binding (and with it the consumer) runs only when the content-type gate recorded no error", "parameters() reachable after a content-type refusal")
@@ -496,4 +515,99 @@ func errAlias(ev ssa.Value) VPred {
 		}
 		return has
 	}
+}
+
+// stageTable recognises validateRequest written as an ordered table of steps: a local array (or slice literal) of the
+// bound methods validate.contentType, validate.responseFormat, validate.parameters, iterated by one loop whose body
+// calls the current element only behind `len(validate.result) == 0` (the loop stops at the first step that recorded
+// an error). It returns the position of each step in the table.
+func stageTable(vr *ssa.Function) (order map[string]int64, guarded bool, found bool) {
+	order = map[string]int64{}
+	resultEmpty := factLenPositive(vFieldLoad("rt/middleware.validation", "result", nil), false)
+	for _, in := range ownInstrs(vr) {
+		al, isAl := in.(*ssa.Alloc)
+		if !isAl {
+			continue
+		}
+		if _, isArr := al.Type().Underlying().(*types.Pointer).Elem().Underlying().(*types.Array); !isArr {
+			continue
+		}
+		elems := literalElemsByIndex(al)
+		if len(elems) < 3 {
+			continue
+		}
+		ord := map[string]int64{}
+		for idx, ev := range elems {
+			mc, isMC := ev.(*ssa.MakeClosure)
+			if !isMC {
+				continue
+			}
+			w, _ := mc.Fn.(*ssa.Function)
+			if w == nil || !strings.HasSuffix(w.Name(), "$bound") {
+				continue
+			}
+			if obj, isFn := w.Object().(*types.Func); isFn {
+				ord[obj.Name()] = idx
+			}
+		}
+		if _, a := ord["contentType"]; !a {
+			continue
+		}
+		if _, b := ord["responseFormat"]; !b {
+			continue
+		}
+		if _, c2 := ord["parameters"]; !c2 {
+			continue
+		}
+		// ranging over the array VALUE (`for _, step := range steps`): elements are read with Index on a copy
+		for _, in2 := range ownInstrs(vr) {
+			ix, isIx := in2.(*ssa.Index)
+			if !isIx {
+				continue
+			}
+			if ad, isLd := derefLoad(ix.X); !isLd || ad != ssa.Value(al) {
+				continue
+			}
+			for _, ci := range allCalls(vr) {
+				if ci.Parent() != vr || ci.Common().Value != ssa.Value(ix) {
+					continue
+				}
+				found = true
+				order = ord
+				guarded = guardedBy(ci, ix, resultEmpty)
+			}
+		}
+		// one loop over the table; the element is called behind the emptiness test, in every iteration that goes on
+		for _, l := range sliceLoops(vr, nil) {
+			base := l.X
+			if sl, isSl := base.(*ssa.Slice); isSl {
+				base = sl.X
+			}
+			if base != ssa.Value(al) {
+				// ranging over an array VALUE iterates over a copy of it
+				isCopy := false
+				if b2, isAl2 := base.(*ssa.Alloc); isAl2 {
+					for _, st := range storesToCell(b2) {
+						if ad, isLd := derefLoad(st.Val); isLd && ad == ssa.Value(al) {
+							isCopy = true
+						}
+					}
+				}
+				if !isCopy {
+					continue
+				}
+			}
+			found = true
+			order = ord
+			for _, ci := range allCalls(vr) {
+				if ci.Parent() != vr || ci.Common().IsInvoke() || ci.Common().StaticCallee() != nil {
+					continue
+				}
+				if ad, isLd := derefLoad(ci.Common().Value); isLd && ad == ssa.Value(l.Elem) {
+					guarded = guardedBy(ci, l.Elem, resultEmpty) || guardedBy(ci, l.Body, resultEmpty) || !pathExists(vr, l.Test, ci, resultEmpty, nil)
+				}
+			}
+		}
+	}
+	return order, guarded, found
 }
